@@ -1,5 +1,6 @@
 CONSTANTS Menu = "quick"
           Trees <- TreeMenu
           V <- Vals
+          Concurrent = TRUE
 INIT Init
 NEXT NextGen
